@@ -155,7 +155,11 @@ class Check:
         return sh([b] + list(args), cwd=self.work, env=self.env, timeout=timeout)
 
     def model(self, outname, args, timeout=900):
-        return sh([os.path.join(VERIF, "ocaml", "bin", outname)] + list(args), cwd=self.work, timeout=timeout)
+        # extracted code recurses deeply on long lists: lift the stack limit for the driver
+        import shlex
+        cmd = "ulimit -s unlimited 2>/dev/null; exec " + " ".join(shlex.quote(a) for a in
+                                                                 [os.path.join(VERIF, "ocaml", "bin", outname)] + list(args))
+        return sh(cmd, cwd=self.work, timeout=timeout)
 
     # ---------------------------------------------------------------- findings
     def known_findings(self):
